@@ -354,4 +354,13 @@ func BigFloatToFixedPointCRT(r *ring.Ring, values []*big.Float, scale *big.Float
 			}
 		}
 	}
+
+	// Coefficients beyond the given values are zero (as in Float64ToFixedPointCRT):
+	// the polynomial may hold something else from a previous use.
+	for j := range moduli {
+		tail := coeffs[j][len(values):]
+		for i := range tail {
+			tail[i] = 0
+		}
+	}
 }
